@@ -1,23 +1,27 @@
 import Ruint.Lemmas.Mul
 import Ruint.Lemmas.GenShift
 import Ruint.Lemmas.GenUintWrap
+import Ruint.Lemmas.GenAddmul
 
 /-! `overflowing_mul`, `wrapping_mul`, `checked_mul`, `saturating_mul` of `src/mul.rs` as GENERATED from the source
-    (the slice algorithms `addmul` / `addmul_n` stand for themselves: they are the C15 models) equal the C02 models. -/
+    (`addmul` is the function generated from `algorithms/mul.rs`; `addmul_n` is the C15 model) equal the C02 models. -/
 namespace Ruint.GenMulWrap
 open Ruint Ruint.Mul Ruint.Limb Ruint.Add
 
 theorem getD_last' (r : List ℕ) (h : 0 < r.length) : r.getD (r.length - 1) 0 = r.getLast?.getD 0 :=
   Ruint.GenShift.getD_getLast r h
 
-theorem overflowing_mul_eq (bits : ℕ) (hN : nlimbs bits < 2 ^ 64) (a b : List ℕ) :
-    Ruint.Gen.uint_overflowing_mul bits (nlimbs bits) a b = overflowingMul bits a b := by
+theorem overflowing_mul_eq (bits : ℕ) (hN : nlimbs bits < 2 ^ 62) (a b : List ℕ)
+    (ha : a.length = nlimbs bits) (hb' : b.length = nlimbs bits) (hwa : AllLt a) (hwb : AllLt b) :
+    Ruint.Gen.uint_overflowing_mul (3 * nlimbs bits + 1) bits (nlimbs bits) a b = overflowingMul bits a b := by
   obtain ⟨z1, _⟩ := zero_canon bits
   obtain ⟨k1, k2, _, _⟩ := addmul_W (Add.zero bits) a b z1.2.1
   rw [z1.1] at k1
   have hz : List.replicate (nlimbs bits) 0 = Add.zero bits := rfl
   unfold Ruint.Gen.uint_overflowing_mul overflowingMul
   simp only [hz]
+  rw [Ruint.GenAddmul.addmul_eq (Add.zero bits) a b z1.2.1 hwa hwb (by rw [z1.1]; omega) (by omega) (by omega) _
+    (by rw [z1.1, ha, hb']; omega)]
   obtain ⟨r, hr⟩ : ∃ r, r = addmul W (Add.zero bits) a b := ⟨_, rfl⟩
   rw [← hr] at k1 k2 ⊢
   by_cases h0 : bits = 0
@@ -28,7 +32,7 @@ theorem overflowing_mul_eq (bits : ℕ) (hN : nlimbs bits < 2 ^ 64) (a b : List 
     have hg := getD_last' r.1 (by rw [k1]; omega)
     rw [k1] at hg
     simp only [gt_iff_lt, hb, decide_true, if_true, h1, hg, GenCore.mask_eq,
-      Ruint.GenShift.apply_mask_eq bits hb hN r.1 k1 k2]
+      Ruint.GenShift.apply_mask_eq bits hb (by omega) r.1 k1 k2]
 
 theorem wrapping_mul_eq (bits : ℕ) (hN : nlimbs bits < 2 ^ 64) (a b : List ℕ)
     (ha : a.length = nlimbs bits) (hb' : b.length = nlimbs bits) :
@@ -47,17 +51,19 @@ theorem wrapping_mul_eq (bits : ℕ) (hN : nlimbs bits < 2 ^ 64) (a b : List ℕ
     simp only [hr, Option.getD_some, gt_iff_lt, hb, decide_true, if_true,
       Ruint.GenShift.apply_mask_eq bits hb hN r hlen hw]
 
-theorem checked_mul_eq (bits : ℕ) (hN : nlimbs bits < 2 ^ 64) (a b : List ℕ) :
-    Ruint.Gen.uint_checked_mul bits (nlimbs bits) a b = checkedMul bits a b := by
+theorem checked_mul_eq (bits : ℕ) (hN : nlimbs bits < 2 ^ 62) (a b : List ℕ)
+    (ha : a.length = nlimbs bits) (hb' : b.length = nlimbs bits) (hwa : AllLt a) (hwb : AllLt b) :
+    Ruint.Gen.uint_checked_mul (3 * nlimbs bits + 1) bits (nlimbs bits) a b = checkedMul bits a b := by
   unfold Ruint.Gen.uint_checked_mul checkedMul
-  rw [overflowing_mul_eq bits hN]
+  rw [overflowing_mul_eq bits hN a b ha hb' hwa hwb]
   rcases overflowingMul bits a b with ⟨v, f⟩
   cases f <;> rfl
 
-theorem saturating_mul_eq (bits : ℕ) (hN : nlimbs bits < 2 ^ 64) (a b : List ℕ) :
-    Ruint.Gen.uint_saturating_mul bits (nlimbs bits) a b = saturatingMul bits a b := by
+theorem saturating_mul_eq (bits : ℕ) (hN : nlimbs bits < 2 ^ 62) (a b : List ℕ)
+    (ha : a.length = nlimbs bits) (hb' : b.length = nlimbs bits) (hwa : AllLt a) (hwb : AllLt b) :
+    Ruint.Gen.uint_saturating_mul (3 * nlimbs bits + 1) bits (nlimbs bits) a b = saturatingMul bits a b := by
   unfold Ruint.Gen.uint_saturating_mul saturatingMul
-  rw [overflowing_mul_eq bits hN, Ruint.GenUintWrap.max_eq bits hN]
+  rw [overflowing_mul_eq bits hN a b ha hb' hwa hwb, Ruint.GenUintWrap.max_eq bits (by omega)]
   rcases overflowingMul bits a b with ⟨v, f⟩
   cases f <;> rfl
 
